@@ -97,9 +97,14 @@ func (c *Ctx) violation(sig, key string, detail interface{}) {
 	c.Viol = append(c.Viol, &Violation{Sig: sig, Key: key, Detail: detail, Count: 1})
 }
 
+// known_findings.txt (committed, never written at run time), one finding per line:
+//   open: property=<id> pattern=<regexp over violation signatures> :: <what fails>
+//   fixed: property=<id> <commit> <what failed>            (suppresses nothing)
+var reOpen = regexp.MustCompile(`^open:\s+property=(\S+)\s+pattern=(\S+)\s+::\s*(.*)$`)
+
 func loadKnown() []KnownFinding {
 	var out []KnownFinding
-	f, err := os.Open(filepath.Join(verifRoot, "known_findings.jsonl"))
+	f, err := os.Open(filepath.Join(verifRoot, "known_findings.txt"))
 	if err != nil {
 		return nil
 	}
@@ -108,16 +113,14 @@ func loadKnown() []KnownFinding {
 	sc.Buffer(make([]byte, 1<<20), 1<<20)
 	for sc.Scan() {
 		l := strings.TrimSpace(sc.Text())
-		if l == "" || strings.HasPrefix(l, "#") {
-			continue
+		if m := reOpen.FindStringSubmatch(l); m != nil {
+			re, err := regexp.Compile(m[2])
+			if err != nil {
+				fmt.Fprintf(os.Stderr, "known_findings.txt: bad pattern %q: %v\n", m[2], err)
+				continue
+			}
+			out = append(out, KnownFinding{Property: m[1], Status: "open", Pattern: m[2], Desc: m[3], re: re})
 		}
-		var k KnownFinding
-		if err := json.Unmarshal([]byte(l), &k); err != nil {
-			fmt.Fprintf(os.Stderr, "known_findings.jsonl: %v\n", err)
-			continue
-		}
-		k.re = regexp.MustCompile(k.Pattern)
-		out = append(out, k)
 	}
 	return out
 }
